@@ -192,8 +192,8 @@ func (s *ArrayExp) getSubnodes() []AstNodable {
 
 func (s *MapExp) getSubnodes() []AstNodable {
 	subs := make([]AstNodable, 0, len(s.Value))
-	for _, n := range s.Value {
-		subs = append(subs, n)
+	for _, k := range sortedKeys(s.Value) {
+		subs = append(subs, s.Value[k])
 	}
 	return subs
 }
@@ -263,8 +263,8 @@ func (e *ArrayExp) FindRefs() []*RefExp {
 
 func (e *MapExp) FindRefs() []*RefExp {
 	var result []*RefExp
-	for _, v := range e.Value {
-		r := v.FindRefs()
+	for _, k := range sortedKeys(e.Value) {
+		r := e.Value[k].FindRefs()
 		if len(r) > 0 {
 			if len(result) == 0 {
 				result = r
@@ -277,8 +277,8 @@ func (e *MapExp) FindRefs() []*RefExp {
 }
 func (e *RefExp) FindRefs() []*RefExp {
 	refs := []*RefExp{e}
-	for _, i := range e.Forks {
-		if m := i.IndexSource(); m != nil {
+	for _, c := range sortedCalls(e.Forks) {
+		if m := e.Forks[c].IndexSource(); m != nil {
 			if s, ok := m.(Exp); ok {
 				refs = append(refs, s.FindRefs()...)
 			}
